@@ -43,7 +43,7 @@ pub const CL_VALUES: [(&str, ClClass); 17] = [
 ];
 
 /// (value, declares chunked, present)
-pub const TE_VALUES: [(&str, bool); 11] = [
+pub const TE_VALUES: [(&str, bool); 13] = [
     ("", false), // absent (index 0)
     ("chunked", true),
     ("Chunked", true),
@@ -55,7 +55,16 @@ pub const TE_VALUES: [(&str, bool); 11] = [
     ("chunkedx", false),
     ("xchunked", false),
     ("deflate, gzip", false),
+    // a coding list spread over two field lines (a line feed separates the lines here): field lines of one name are one list
+    // (RFC 9110 5.3), so this response declares the codings gzip, chunked - a coding list ending in chunked
+    ("gzip\nchunked", true),
+    ("gzip, deflate\nChunked", true),
 ];
+
+/// The field lines a TE_VALUES entry stands for.
+pub fn te_lines(idx: usize) -> Vec<&'static str> {
+    TE_VALUES[idx].0.split('\n').collect()
+}
 
 #[derive(Debug)]
 pub enum Expect {
